@@ -415,6 +415,12 @@ func (cc *connectUnaryClientConn) validateResponse(response *http.Response) *Err
 			serverErr.meta = cc.responseHeader.Clone()
 			mergeHeaders(serverErr.meta, cc.responseTrailer)
 			return &serverErr
+		} else if code := err.Code(); code == CodeCanceled || code == CodeDeadlineExceeded {
+			// The body couldn't be read because the call's context ended: that,
+			// not the HTTP status, is why the call failed.
+			return err
+		} else if ctxErr, ok := asError(wrapIfContextError(err.Unwrap())); ok {
+			return ctxErr
 		}
 		return NewError(
 			connectHTTPToCode(response.StatusCode),
